@@ -22,7 +22,7 @@ Open Scope N_scope.
      code_ok  the code carried by a created account is what the database serves for its hash
               (see C10_created_code_needs_db below for what happens otherwise);
      no OutPanic: every touched account of a commit was loaded before (parallel_state.rs:291),
-              a created account carries its code (:333), drained balances fit u128. *)
+              drained balances fit u128 (a created account without code no longer panics: fix 31a4458, F10). *)
 Theorem C10_par_simulates_revm :
   forall d bundle_update ops outs p',
     db_wf0 d -> Forall (code_ok d) ops ->
@@ -191,6 +191,37 @@ Example C10_reads_need_db_wf0 :
 Proof.
   exists (mkDb (fun _ => None) (fun _ _ => 7) (fun _ => 0)).
   eexists. eexists. eexists. eexists. repeat split.
+Qed.
+
+(* without [db_wf] (finding F9): an account the database holds with balance only (no nonce, no code) AND
+   storage. One extra read - what a speculative worker does - before the commit of a balance change
+   (which promotes the account to a status whose storage is "known") changes what the state serves
+   afterwards: 0 without the read (as revm's State driven by the committed history), 9 with it. The
+   hypothesis of [C10_reads_do_not_change_answers] is necessary; the real ParallelState shows the same
+   (known_findings.json F9, harness: `cache promo`). *)
+Definition f9_bare : info := mkInfo 1 0 KECCAK_EMPTY None.
+Definition f9_db : db :=
+  mkDb (fun a => if a =? 1 then Some f9_bare else None)
+       (fun a k => if (a =? 1) && (k =? 3) then 9 else 0)
+       (fun _ => 0).
+Definition f9_credit : eaccount := mkEAcc (mkInfo 2 0 KECCAK_EMPTY None) f9_bare true false false false [].
+
+Example C10_reads_change_answers_without_db_wf_refuted :
+  exists outs1 p1 outs2 p2 outs2' q2,
+    db_wf0 f9_db /\ ~ db_wf f9_db /\
+    p_run f9_db (p_init true) [OBasic 1] = (outs1, p1) /\
+    p_run f9_db p1 [OCommit [(1, f9_credit)]; OStorage 1 3] = (outs2, p2) /\
+    p_run f9_db (fst (p_step f9_db p1 (OStorage 1 3))) [OCommit [(1, f9_credit)]; OStorage 1 3] = (outs2', q2) /\
+    nth_opt outs2 1 = Some (OutWord 0) /\ nth_opt outs2' 1 = Some (OutWord 9) /\
+    (exists r1 r2, r_run f9_db (r_init true) [OBasic 1] = (outs1, r1) /\
+                   r_run f9_db r1 [OCommit [(1, f9_credit)]; OStorage 1 3] = (outs2, r2)).
+Proof.
+  eexists. eexists. eexists. eexists. eexists. eexists.
+  split. { intros a Ha k. unfold f9_db in *. cbn in *. destruct (a =? 1); [discriminate|reflexivity]. }
+  split. { intros H. specialize (H 1 eq_refl 3). vm_compute in H. discriminate. }
+  split; [vm_compute; reflexivity|]. split; [vm_compute; reflexivity|]. split; [vm_compute; reflexivity|].
+  split; [reflexivity|]. split; [reflexivity|].
+  eexists. eexists. split; vm_compute; reflexivity.
 Qed.
 
 Example C10_bundle_example :
